@@ -47,7 +47,7 @@ BP = ["none", "battery", "l2", "l2noise", "fit"]
 
 def cases(seed, tier):
     rng = random.Random(f"C15:{seed}")
-    nd, ns, nf = (260, 200, 3000) if tier == "quick" else (12000, 8000, 150000)
+    nd, ns, nf = (600, 500, 5000) if tier == "quick" else (12000, 8000, 150000)
     out = [{"kind": "fit_grid"}, {"kind": "gmm", "seed": 1}]
     for i in range(nd):
         out.append({"kind": "docs", "seed": rng.randrange(1 << 30), "n": rng.choice([1, 3, 10, 30]),
